@@ -87,6 +87,12 @@ class StateVec:
         self.term, self.k = term, k
 
     def __getitem__(self, i):
+        if isinstance(i, (list, tuple, np.ndarray)) or type(i).__module__.split(".")[0] in ("jax", "jaxlib"):
+            idx = np.asarray(i)
+            out = np.empty(idx.shape, dtype=object)
+            for ix in np.ndindex(idx.shape):
+                out[ix] = T("get", self.term, self.k, int(idx[ix]))
+            return out.view(TArr)
         return T("get", self.term, self.k, int(i))
 
 
@@ -114,11 +120,19 @@ def zeros(shape, *a, **k):
     return TArr(np.zeros(shape, dtype=object) + 0.0)
 
 
+def zeros_like(x, *a, **k):
+    return TArr(np.zeros(np.shape(_obj(x)), dtype=object) + 0.0)
+
+
+def ones(shape, *a, **k):
+    return TArr(np.zeros(shape, dtype=object) + 1.0)
+
+
 def expand_dims(x, axis):
     return np.expand_dims(_obj(x), axis).view(TArr)
 
 
-jnp = types.SimpleNamespace(asarray=asarray, concatenate=concatenate, zeros=zeros, expand_dims=expand_dims, ndarray=object)
+jnp = types.SimpleNamespace(asarray=asarray, array=asarray, concatenate=concatenate, zeros=zeros, zeros_like=zeros_like, ones=ones, expand_dims=expand_dims, ndarray=object)
 
 
 def tree_map(f, *trees):
